@@ -1,0 +1,30 @@
+//go:build verif
+
+package db
+
+import (
+	"database/sql"
+
+	"github.com/agglayer/aggkit/aggsender/db/migrations"
+	"github.com/agglayer/aggkit/db"
+	"github.com/agglayer/aggkit/log"
+)
+
+// VerifNewAggSenderSQLStorageWithDB is NewAggSenderSQLStorage on a caller-supplied database handle
+// (opened by the runtime-verification harness through a fault-injecting database/sql driver on the
+// same SQLite file). Only compiled with the `verif` build tag.
+func VerifNewAggSenderSQLStorageWithDB(logger *log.Logger, cfg AggSenderSQLStorageConfig,
+	database *sql.DB) (*AggSenderSQLStorage, error) {
+	if err := migrations.RunMigrations(logger, database); err != nil {
+		return nil, err
+	}
+	return &AggSenderSQLStorage{
+		db:               database,
+		logger:           logger,
+		cfg:              cfg,
+		KeyValueStorager: db.NewKeyValueStorage(database),
+	}, nil
+}
+
+// VerifDB returns the database handle of the storage
+func (a *AggSenderSQLStorage) VerifDB() *sql.DB { return a.db }
